@@ -9,9 +9,70 @@ import (
 	"runtime"
 	"sort"
 	"strings"
+	"sync/atomic"
 	"testing"
 	"time"
 )
+
+// ---- watchdog: a hang or runaway allocation in the code under test must end
+// as a reported, attributable violation instead of a killed worker.
+
+var (
+	progressTicks atomic.Int64
+	progressLabel atomic.Value // func() interface{} or a value
+	watchScenario atomic.Value
+)
+
+// Progress tells the watchdog that the worker is alive; label describes the
+// case being run (it is only marshalled if the worker has to be abandoned).
+func Progress(label interface{}) {
+	progressTicks.Add(1)
+	if label != nil {
+		progressLabel.Store(&label)
+	}
+}
+
+func startWatchdog(env Env) {
+	stall := 90 * time.Second
+	go func() {
+		last := int64(-1)
+		lastChange := time.Now()
+		var ms runtime.MemStats
+		for {
+			time.Sleep(500 * time.Millisecond)
+			cur := progressTicks.Load()
+			if e := E; e != nil {
+				cur += int64(e.steps)
+			}
+			if cur != last {
+				last, lastChange = cur, time.Now()
+			}
+			runtime.ReadMemStats(&ms)
+			why := ""
+			if ms.Sys > 6<<30 {
+				why = fmt.Sprintf("memory obtained from the OS grew to %d MiB", ms.Sys>>20)
+			} else if time.Since(lastChange) > stall {
+				why = fmt.Sprintf("no progress for %s (hang in un-instrumented code)", stall)
+			}
+			if why == "" {
+				continue
+			}
+			if env.Replay != "" {
+				fmt.Printf("FAILURE hang-or-memory-exhaustion\n%s\nREPLAY-REPRODUCED hang-or-memory-exhaustion\n", why)
+				os.Exit(1)
+			}
+			scn, _ := watchScenario.Load().(string)
+			var input json.RawMessage
+			if p, ok := progressLabel.Load().(*interface{}); ok && p != nil {
+				input, _ = json.Marshal(*p)
+			}
+			rep := &Report{Scenario: scn, Outcomes: map[string]int64{}, Complete: false,
+				Violations: []Violation{{Scenario: scn, Sig: "hang-or-memory-exhaustion", Detail: why + "; last case: " + string(input), Input: input, Replayed: true}}}
+			WriteOutput(env.Out, &WorkerOutput{Reports: []*Report{rep}})
+			os.Exit(3)
+		}
+	}()
+}
 
 // Scenario is one registered check body.
 type Scenario struct {
@@ -48,11 +109,15 @@ func Main(t *testing.T) {
 	}
 	runtime.GOMAXPROCS(2)
 	if env.Replay != "" {
+		startWatchdog(env)
 		replayFile(t, env)
 		return
 	}
 	out := &WorkerOutput{}
 	names := strings.Split(env.Scenario, ",")
+	if env.Scenario != "list" {
+		startWatchdog(env)
+	}
 	if env.Scenario == "list" {
 		var all []string
 		for n := range scenarios {
@@ -68,6 +133,7 @@ func Main(t *testing.T) {
 			t.Fatalf("unknown scenario %q", name)
 		}
 		var rep *Report
+		watchScenario.Store(name)
 		if s.Custom != nil {
 			start := time.Now()
 			rep = s.Custom(env)
